@@ -78,7 +78,7 @@ pub fn shrink(prop: Prop, known: &[String], t: &Trace, v: &Violation) -> (Trace,
     let budget = 4000usize;
     let mut best = t.clone();
     let mut best_v = v.clone();
-    let mut accept = |cand: &Trace, tests: &mut usize| -> Option<Violation> {
+    let accept = |cand: &Trace, tests: &mut usize| -> Option<Violation> {
         if *tests >= budget {
             return None;
         }
